@@ -1,11 +1,14 @@
 \* C10 leg A thorough: worlds of <= 3 series, matcher sets of <= 2 from 3 names x (EQ/NEQ x 4 literals +
 \* RE/NRE x {.*, .+, 6 alternations, 4 classes}), every lazy choice; histories of <= 3 queries + evictions
-\* over the n0 matchers
+\* over single n0 matchers (= and !~)
 SPECIFICATION Spec
 CONSTANTS MaxSeries = 3
           MaxMatchers = 2
           MaxHistory = 3
+          Lits = {"", "a", "b", "c"}
+          MatcherNames = {"n0", "n1", "zz"}
           HistNames = {"n0"}
+          HistTypes = {"EQ", "NRE"}
           SetAlts <- SetAltsThorough
           ClsAlts <- ClsAltsThorough
 INVARIANT C10_AnswerIsTheSelection
